@@ -10,6 +10,7 @@ RULE = ('pairs: all ordered pairs of total DFAs with <=2 states over {a} and a s
         'partial DFAs (random entries removed): make_total; finite languages: all subsets of words <=2 over {a,b} of size <=3 (quick: sample) and random languages: the helpers of language_algorithms. '
         'Relation: result valid and language-equal (exact, verified dfa_equivb / subset construction) to the proved model result; helpers: set equality. '
         'Non-trivial = result automaton has >= 2 states and a non-empty, non-full language sample / language with >= 2 words; distinct by input text.')
+RULE += ' Added after the seeded rounds: more than ten numbered states (q9 / q10, trap9 / trap10), unusual state names.'
 CODES = {10: 'dfa_union invalid', 11: 'dfa_union language wrong', 12: 'dfa_union raised', 13: 'dfa_intersection invalid', 14: 'dfa_intersection language wrong', 15: 'dfa_intersection raised',
          16: 'dfa_symmetric_difference invalid', 17: 'dfa_symmetric_difference language wrong', 18: 'dfa_symmetric_difference raised',
          20: 'dfa_complement invalid', 21: 'dfa_complement language wrong', 22: 'dfa_complement raised', 23: 'dfa_reverse initial state not fresh',
